@@ -447,6 +447,12 @@ async fn fabitn(
     // Step 2) Run 2-party OTs to compute keys and MACs [input parameters mm and kk].
 
     // Seed a faster AesRng from the shared chacha rng
+    #[cfg(feature = "__verif")]
+    crate::verif::probe(
+        "fabitn.rseed",
+        i,
+        multi_shared_rand.clone().random::<Block>().as_bytes(),
+    );
     let mut aes_rand = AesRng::from_seed(multi_shared_rand.random());
     // Step 3) Verification of MACs and keys.
     // Step 3 a) Sample 3 * RHO random l'-bit strings r.
@@ -951,6 +957,15 @@ async fn faand(
     // Use SliceRandom::shuffle for unbiased random permutation
     let mut indices: Vec<usize> = (0..lprime).collect();
     indices.shuffle(shared_rand);
+    #[cfg(feature = "__verif")]
+    crate::verif::probe(
+        "faand.perm",
+        i,
+        &indices
+            .iter()
+            .flat_map(|x| (*x as u32).to_le_bytes())
+            .collect::<Vec<u8>>(),
+    );
 
     // Distribute shuffled indices into buckets using chunks
     // Since indices.len() == lprime == l * b, chunks_exact(b) gives us exactly l chunks of size b
